@@ -156,6 +156,29 @@ STRENGTHENED = {
                         "exercises; caught by C04, see C04-mut_C13-r5m2",
     "C16-mut_C16-r5m2": "missed at first (the linear mapper kept its copy of the base reactions); sessions Build / edit base / Build on the "
                         "linear mapper, theorem ThSess, memo instance refuted",
+    "C04-mut_C04-r5m1": "missed at first (requested time points lost dtype=float: integer-typed grids truncate the inserted reached time); "
+                        "integer-typed renderings of requested grids at non-integral reached times",
+    "C04-mut_C04-r5m2": "missed at first (parameter updates re-initialise the integrator when use_jacobian=True); the Simulator's "
+                        "construction options are a dimension of the histories",
+    "C12-mut_C04-r5m2": "a continuation defect of the Simulator under use_jacobian=True: outside what C12 exercises (closures and short "
+                        "trajectories of fresh simulators); owned by C04, see C04-mut_C04-r5m2",
+    "C09-mut_C09-r5m1": "a cache file-name defect (Path.with_suffix collapses labels that differ after the last dot): scans without a cache "
+                        "are unaffected; caught by C19, the owning check, see C19-mut_C09-r5m1",
+    "C10-mut_C10-r5m1": "missed at first (get_combined joined by label); the two-segment layout stores the switch point in both segments",
+    "C15-mut_C15-r5m1": "missed at first (state columns labelled with the keys of the supplied y0); user-supplied initial values are handed "
+                        "over in reverse declaration order for two of three cases",
+    "C04-mut_C15-r5m1": "the same change seen from C04: its histories supply y0 in declaration order only; owned by C15, see C15-mut_C15-r5m1",
+    "C15-mut_C15-r5m2": "a scan defect (assignment-defined scanned parameters ignored by the per-row helper; the reported fluxes still "
+                        "balance): caught by C09, the owning check, see C09-mut_C15-r5m2",
+    "C18-mut_C18-r5m1": "missed at first by C18 (update_variable skipping a value of exactly 0; caught by C03 at once); zero as a regular "
+                        "value of supplied states and of the model's own initial values",
+    "C18-mut_C18-r5m2": "missed at first (mc.variable_elasticities wrote the explicit state into the caller's model); the mc.* wrappers of "
+                        "the MCA routines are replayed (explicit state wins, model untouched) - which exposed a genuine defect in "
+                        "mc.response_coefficients (fixed 696c75d)",
+    "C20-mut_C20-r5m1": "missed at first (shared defaults written into the caller's FitSettings); FitJoint HistoryFree: two-call histories "
+                        "on one settings list, settings compared before / after, write-back instance refuted",
+    "C20-mut_C20-r5m2": "missed at first (joint_mixed computed its name filter from the first model only); experiments over a poorer and a "
+                        "richer model in every order, joint_mixed as an entry point",
 }
 rows = []
 for d in sorted(p for p in root.iterdir() if p.is_dir()):
